@@ -173,9 +173,9 @@ R"(    template<typename... Args>
         ::sbepp::detail::access_by_tag_tag,
         {tag},
         Args&&... args) const noexcept
-        -> decltype({name}(std::forward<Args>(args)...))
+        -> decltype(this->{name}(std::forward<Args>(args)...))
     {{
-        return {name}(std::forward<Args>(args)...);
+        return this->{name}(std::forward<Args>(args)...);
     }}
 )",
             // clang-format on
